@@ -80,6 +80,21 @@ func Run(prop string) func(c *hl.Ctx) error {
 		defer pool.Close()
 		if cs := c.ReplayCase(); cs != nil {
 			in := cs["in"].(map[string]any)
+			if cs["k"] == "hist" {
+				var ops []Op
+				for _, o := range in["ops"].([]any) {
+					ops = append(ops, OpFromJSON(o.(map[string]any)))
+				}
+				if ops == nil {
+					ops = []Op{}
+				}
+				rec, err := pool.History(histReq{Text: in["text"].(string), Ops: ops})
+				if err != nil {
+					return err
+				}
+				c.Emit(rec)
+				return nil
+			}
 			if cs["k"] == "import" {
 				var np *string
 				if s, ok := in["newPath"].(string); ok {
@@ -100,12 +115,23 @@ func Run(prop string) func(c *hl.Ctx) error {
 		r := c.Rand()
 		if prop == "C36" {
 			RunImports(c, r, c.Pick(300, 20000))
+			// chained histories (the returned graph is the next input; operations and their inverses)
+			for h := 0; h < c.Pick(120, 3000); h++ {
+				gen := &Gen{R: r, MaxTop: 3, MaxDepth: 2, Boards: h%4 == 0, Tricky: h%4 == 3, MultiRef: h%2 == 1, Extras: h%3 == 0, Count: c.Count}
+				text := gen.Diagram()
+				rec, err := pool.History(histReq{Text: text, Seed: r.Int63(), N: 3 + r.Intn(12)})
+				if err != nil {
+					return err
+				}
+				c.Emit(rec)
+				c.Count("hist:chained")
+			}
 		}
 		nh := c.Pick(map[string]int{"C36": 150, "C37": 200, "C38": 220, "C39": 220, "C40": 220, "C41": 130}[prop],
 			map[string]int{"C36": 1500, "C37": 2500, "C38": 2500, "C39": 2500, "C40": 2500, "C41": 1200}[prop])
 		for h := 0; h < nh; h++ {
 			gen := &Gen{R: r, MaxTop: 4, MaxDepth: 2, Boards: prop == "C41" || h%3 == 0, ForceBoard: prop == "C41",
-				Tricky: h%4 == 3, MultiRef: h%2 == 1 && os.Getenv("D2V_EDIT_NESTED") == "", Count: c.Count, Nested: os.Getenv("D2V_EDIT_NESTED") != ""}
+				Tricky: h%4 == 3, MultiRef: h%2 == 1 && os.Getenv("D2V_EDIT_NESTED") == "", Count: c.Count, Nested: os.Getenv("D2V_EDIT_NESTED") != "", Extras: h%2 == 0}
 			og := &OpGen{R: r, W: weights[prop], Tricky: h%4 == 3, Count: c.Count}
 			text := gen.Diagram()
 			g, err := Compile(text)
